@@ -3,24 +3,40 @@
    Statements only; each is closed by [exact] (or by computation over the regenerated
    Gen/C08Tables.v).
 
-   ASSUMPTION of every ERTM statement (it is built into Model/Ertm.v, which has no timer
-   transition): the retransmission and monitor timers of EnhancedRetransmissionProcessor
-   do not fire, and the two FIFO channels neither lose nor reorder frames.  Schedules are
-   arbitrary interleavings of writes at either end and deliveries in either direction
-   ("order-preserving delays"). *)
+   Schedules are arbitrary interleavings of writes at either end, deliveries in either
+   direction ("order-preserving delays") and firings of the four ERTM timers (labels
+   TimeoutRetxA/B, TimeoutMonA/B of Model/Ertm.v).  The SAFETY statements (in-order
+   prefix, window, sequence numbers, frames = segments, well-formed frames, bounded
+   draining) hold for ALL schedules.  COMPLETE delivery at quiescence is proved under the
+   hypothesis [no_timer sched = true] - no timer fires, i.e. no acknowledgement is delayed
+   beyond the retransmission timeout - and is therefore named ..._partial;
+   C08_ertm_timer_stall_refuted shows the hypothesis is necessary (known finding D08t).
+   The two FIFO channels neither lose nor reorder frames. *)
 From Coq Require Import ZArith List Bool.
 From BV Require Import Model.Crc16 Model.Ertm Model.L2capConfig Gen.C08Tables.
-From BV Require Import Proofs.ErtmSeg Proofs.Ertm Proofs.ErtmWire Proofs.L2capConfig.
+From BV Require Import Proofs.ErtmSeg Proofs.Ertm Proofs.ErtmWire Proofs.ErtmLive Proofs.L2capConfig.
 Import ListNotations.
 Open Scope Z_scope.
 
-(* ERTM: for every peer MPS >= 1, every window 1..63 (both directions independently),
-   every sequence of SDUs of any sizes written at either end (so also SDUs of more than 64
-   segments: sequence numbers wrap) and every schedule: what each sink has received is a
-   prefix of what the peer wrote, and when both channels are empty it is exactly what the
-   peer wrote, nothing is left queued, unacknowledged or half reassembled. *)
-Theorem C08_ertm_exactly_once_in_order : forall mps_a win_a mps_b win_b sched,
+(* ERTM safety: for every peer MPS >= 1, every window 1..63 (both directions
+   independently), every sequence of SDUs of any sizes written at either end (so also SDUs
+   of more than 64 segments: sequence numbers wrap) and every schedule, timers included:
+   what each sink has received is a prefix of what the peer wrote - nothing duplicated,
+   reordered, corrupted or invented. *)
+Theorem C08_ertm_in_order_prefix : forall mps_a win_a mps_b win_b sched,
   params_ok mps_a win_a mps_b win_b ->
+  let s := run (sys_init mps_a win_a mps_b win_b) sched in
+  (exists j, s_sink_b s = firstn j (writes_a sched)) /\
+  (exists j, s_sink_a s = firstn j (writes_b sched)).
+Proof. exact ertm_in_order_prefix. Qed.
+Print Assumptions C08_ertm_in_order_prefix.
+
+(* ERTM completeness - PARTIAL: proved for schedules in which no timer fires.  When both
+   channels are empty each sink holds exactly what the peer wrote and nothing is left
+   queued, unacknowledged or half reassembled.  What is missing: schedules with timer
+   events, where the statement is false of the code (C08_ertm_timer_stall_refuted). *)
+Theorem C08_ertm_exactly_once_in_order_partial : forall mps_a win_a mps_b win_b sched,
+  params_ok mps_a win_a mps_b win_b -> no_timer sched = true ->
   let s := run (sys_init mps_a win_a mps_b win_b) sched in
   (exists j, s_sink_b s = firstn j (writes_a sched)) /\
   (exists j, s_sink_a s = firstn j (writes_b sched)) /\
@@ -29,7 +45,7 @@ Theorem C08_ertm_exactly_once_in_order : forall mps_a win_a mps_b win_b sched,
      e_pend (s_a s) = [] /\ e_txw (s_a s) = [] /\ e_pend (s_b s) = [] /\ e_txw (s_b s) = [] /\
      e_insdu (s_a s) = [] /\ e_insdu (s_b s) = []).
 Proof. exact ertm_exactly_once_in_order. Qed.
-Print Assumptions C08_ertm_exactly_once_in_order.
+Print Assumptions C08_ertm_exactly_once_in_order_partial.
 
 (* The I-frames ever sent are those acknowledged plus those in the transmit window, and
    the transmit window never holds more than the window the peer advertised. *)
@@ -66,6 +82,39 @@ Theorem C08_frames_are_segments : forall mps_a win_a mps_b win_b sched,
 Proof. exact frames_are_segments. Qed.
 Print Assumptions C08_frames_are_segments.
 
+(* Draining: from any reachable state, a run of deliveries (each enabled when taken, in any
+   order) has at most measure(s) steps - 3 per queued pdu, 2 per I-frame and 1 per S-frame
+   in flight - so once writing stops the system is quiescent after finitely many
+   deliveries, and there (no timer having fired) C08_ertm_exactly_once_in_order_partial
+   says every SDU written has been delivered. *)
+Theorem C08_ertm_drains : forall mps_a win_a mps_b win_b sched more,
+  params_ok mps_a win_a mps_b win_b ->
+  let s := run (sys_init mps_a win_a mps_b win_b) sched in
+  all_enabled s more -> zlen more <= measure s.
+Proof. exact ertm_drains. Qed.
+Print Assumptions C08_ertm_drains.
+
+(* The no_timer hypothesis cannot be dropped: MPS 10, window 2, a 100-byte SDU; the
+   retransmission timer fires before the first acknowledgement arrives.  The monitor
+   handle then blocks the output for good: quiescent, 8 pdus queued, nothing delivered. *)
+Theorem C08_ertm_timer_stall_refuted :
+  exists sched,
+    let s := run (sys_init 10 2 10 2) sched in
+    params_ok 10 2 10 2 /\ quiescent s = true /\ writes_a sched <> [] /\
+    s_sink_b s = [] /\ length (e_pend (s_a s)) = 8%nat /\ e_mon (s_a s) = MonDead.
+Proof. exact ertm_timer_stall_refuted. Qed.
+Print Assumptions C08_ertm_timer_stall_refuted.
+
+(* Every frame either end ever sends is well formed (sequence numbers in 0..63, 16-bit SDU
+   length on START frames, only RR supervisory frames) when SDUs are shorter than 65536
+   bytes - with or without timers - so C08_wire_roundtrip applies to each of them. *)
+Theorem C08_frames_wf : forall mps_a win_a mps_b win_b sched,
+  sdus_small sched ->
+  let s := run (sys_init mps_a win_a mps_b win_b) sched in
+  Forall frame_wf (s_log_ab s) /\ Forall frame_wf (s_log_ba s).
+Proof. exact frames_wf. Qed.
+Print Assumptions C08_frames_wf.
+
 (* Segmentation and reassembly: any SDU, any MPS >= 1 (also exact multiples of the MPS). *)
 Theorem C08_segment_reassemble : forall mps w acc,
   1 <= mps -> reasm acc (segment mps w) = ([acc ++ w], []).
@@ -94,6 +143,13 @@ Theorem C08_wire_roundtrip : forall fcs cid f,
   end.
 Proof. exact wire_roundtrip. Qed.
 Print Assumptions C08_wire_roundtrip.
+
+(* Basic mode on the wire: the PDU payload is the SDU, FCS appended / stripped. *)
+Theorem C08_basic_wire_roundtrip : forall fcs cid sdu,
+  0 <= cid < 65536 -> zlen sdu + 2 < 65536 ->
+  dec_pdu fcs (enc_pdu fcs cid sdu) = Some (cid, sdu).
+Proof. exact dec_enc_pdu. Qed.
+Print Assumptions C08_basic_wire_roundtrip.
 
 (* ... which is why set-up must leave both ends with the same FCS setting: *)
 Theorem C08_wire_fcs_mismatch_refuted :
